@@ -474,6 +474,13 @@ def run_case(case):
         _, sign = case
         for text in V.durations_grammar():
             el_duration_text(c, sign + text)
+        # 1*DIGIT has no upper length: leading zeros and ten-digit components, wherever the VALUE still is a timedelta
+        for text in V.durations_grammar(vals=("0000000015", "1000000000", "007")):
+            try:
+                V.dec_duration(text)
+            except OverflowError:
+                continue
+            el_duration_text(c, sign + text)
     elif kind == "period":
         _, i = case
         grid = period_grid()
